@@ -389,8 +389,9 @@ def check(pid, tier, seed):
         'wall_s': round(wall, 2),
         'violations': len(violations),
     }
-    os.makedirs(os.path.join(VERIF, 'evidence'), exist_ok=True)
-    json.dump(ev, open(os.path.join(VERIF, 'evidence', pid + '.json'), 'w'), indent=1, default=str)
+    evdir = os.environ.get('PYVC_EVIDENCE_DIR') or os.path.join(VERIF, 'evidence')      # (development sweeps redirect this; the interface path is the default)
+    os.makedirs(evdir, exist_ok=True)
+    json.dump(ev, open(os.path.join(evdir, pid + '.json'), 'w'), indent=1, default=str)
     print('%s: %d obligations expected to hold, %d discharged, %d refuted, %d undecided; %d known-finding obligations; symexec %.1fs solver %.1fs; exit %d'
           % (pid, len(expected), len(proved), len(refuted), len(unknown) + len(v.undecided), len(open_known), t_sym, t_solve, exit_code))
     return exit_code
